@@ -51,6 +51,8 @@ ASSUMPTIONS = [
     "that: the path must exist and end at CPython's object, and unknown names / builtins must come back unchanged",
     "stub-only variant: modules listed in case['stubs'] are loaded by Griffe from .pyi / __init__.pyi files with the same "
     "text that CPython imports as .py (a stub has the scoping of the module it describes)",
+    "the only external import is `from typing import Literal as Lit<i>` (a fresh name per module); strings inside it are "
+    "values: the expression must contain no identifier besides the subscripted name",
     "packages avoid every shape of the C05 loader findings (wildcards only from plain modules, plain __all__ lists), so "
     "that C04 does not depend on the pending C05 fixes",
     "scope classes may inherit from each other, but no attribute access goes through inheritance; attribute segments "
